@@ -69,6 +69,9 @@ def run_forked(prop, case, hashseed, wall=CHILD_WALL_S):
                 if isinstance(case, dict) and case.get('knob_logging'):
                     from gambatools.global_settings import GambaTools
                     GambaTools.enable_logging = True       # ambient configuration, drawn per case (swarm style)
+                if isinstance(case, dict) and case.get('knob_limit') is not None:
+                    from gambatools.global_settings import GambaTools
+                    GambaTools.pda_epsilon_closure_max_iterations = case['knob_limit']   # properties about PDAs set their own value later
                 res = prop.run_case(case, env)
             except SimTimeout as e:
                 res = {'harness_error': 'uncaught SimTimeout: %s' % e}
@@ -158,6 +161,9 @@ def gen_all(prop, pid, seed, rnd, tier):
         for c in cases:
             if kr.random() < 0.2:
                 c['knob_logging'] = True
+            if kr.random() < 0.12:
+                # the PDA closure limit is ambient too; code that has nothing to do with PDAs must not care
+                c['knob_limit'] = kr.choice([0, 1, 2, 3, 5])
     return cases
 
 
@@ -199,6 +205,8 @@ def do_round(pid, seed, rnd, tier):
         out['cases'] += res.get('evals', 1)
         if isinstance(case, dict) and case.get('knob_logging'):
             out['probes']['knob_logging_on'] = out['probes'].get('knob_logging_on', 0) + 1
+        if isinstance(case, dict) and case.get('knob_limit') is not None:
+            out['probes']['knob_small_closure_limit'] = out['probes'].get('knob_small_closure_limit', 0) + 1
         out['ticks'] += res.get('ticks', 0)
         for k in res.get('nontrivial_keys', ()):
             out['keys_nontrivial'].add(k)
